@@ -36,6 +36,19 @@ func ruleQueryValuesCaseSensitive(c *chk.Ctx) {
 			bad = ir.CalleeName(&call.Call) + " at " + c.P.Pos(call.Pos())
 		}
 	})
+	// integers are decimal: a value is a number exactly when it is optionally signed decimal
+	// digits (base 0 would read 010 as 8 and type 0x10, 0b11, 1_000 as numbers)
+	notDecimal := ""
+	c.P.ExtInstrs(f, func(ins ssa.Instruction) {
+		call, ok := ins.(*ssa.Call)
+		if !ok || !ir.IsCallTo(&call.Call, "strconv.ParseInt", "strconv.ParseUint") || len(call.Call.Args) < 2 {
+			return
+		}
+		if k, isK := ir.ConstInt(call.Call.Args[1]); !isK || k != 10 {
+			notDecimal = c.P.Pos(call.Pos())
+		}
+	})
+	c.Check(notDecimal == "", "TABLE.query", f, "integer query values are decimal", f.Pos(), "every integer conversion in the typing of query values uses base 10", "an integer query value is not parsed in base 10 (at "+notDecimal+"): a zero-padded value would be read as octal and 0x / 0b / underscore spellings, which the documented rules type as strings, would become numbers")
 	c.Check(bad == "", "TABLE.query", f, "query values are typed as given (case-sensitive)", f.Pos(), "no case folding in the typing of query values", "the typing of query values folds case ("+bad+"): a literal string such as True or NULL would be delivered as a constant instead of the string the documented rules give")
 }
 
